@@ -26,7 +26,7 @@ pub struct Ctx {
     pub time_cap: u64,
 }
 
-fn spawn(ctx: &Ctx, env: &[(String, String)]) -> Option<Engine> {
+pub(super) fn spawn(ctx: &Ctx, env: &[(String, String)]) -> Option<Engine> {
     match Engine::spawn(&ctx.engine, env) {
         Ok(e) => Some(e),
         Err(e) => {
@@ -46,7 +46,7 @@ fn replay_json(prop: &str, job: usize, e: &Engine) -> String {
 }
 
 /// Runs `n` sessions on a pool of threads; each session is a pure function of (seed, index).
-fn pool(ctx: &Ctx, n: usize, f: impl Fn(&Ctx, usize) + Sync) {
+pub(super) fn pool(ctx: &Ctx, n: usize, f: impl Fn(&Ctx, usize) + Sync) {
     let next = AtomicUsize::new(0);
     let started = std::time::Instant::now();
     std::thread::scope(|s| {
@@ -430,8 +430,16 @@ fn c08_session(ctx: &Ctx, idx: usize, seeds: &[String]) {
     let Ok(mut current) = expected_dump(&start_game) else { return };
     let steps = 4 + rng.below(8);
     let mut prev_game: Option<Game> = None;
+    let mut searching_since: Option<usize> = None;
     for step in 0..steps {
         let from = e.log.len();
+        if let Some(since) = searching_since.take() {
+            e.send("stop");
+            if e.wait_since(since, 5_000, |ev| ev.src == Src::Out && ev.line.starts_with("bestmove")).is_none() {
+                out::inconclusive("C08 session: no bestmove after stop (C10's business)", 1);
+                return;
+            }
+        }
         match rng.below(10) {
             0 => {
                 e.send("ucinewgame");
@@ -480,6 +488,14 @@ fn c08_session(ctx: &Ctx, idx: usize, seeds: &[String]) {
                     }
                 }
                 continue;
+            }
+            3 if searching_since.is_none() => {
+                // the next position command arrives while a search is running (analysis mode: the
+                // user moves a piece on the board before the GUI has sent stop); the search works on
+                // its own copy, so the command describes the session position like any other
+                searching_since = Some(e.log.len());
+                e.send(*rng.pick(&["go infinite", "go depth 40", "go movetime 600000", "go wtime 3600000 btime 3600000"]));
+                out::count("C08.positions_sent_during_a_search", 1);
             }
             _ => {}
         }
